@@ -124,13 +124,17 @@ static std::string gen_tunnel(uint64_t seed, uint64_t idx, bool thorough) {
     uint64_t t = 1000000, scale = (uint64_t[]){20000, 200000, 2000000}[r.below(3)];
     std::vector<std::string> frames;
     if (uniform_len >= 0 && count > 8) nframes = std::max(nframes, count * (int)r.range(1, 3));
+    bool repeats = r.chance(0.25);  // a source that sends the same frame again and again
+    CanRec prev_frame;
     for (int i = 0; i < nframes; i++) {
         CanRec c = gen_can_frame(r, fd);
-        if (uniform_len >= 0) {
+        if (repeats && i > 0 && r.chance(0.5)) c = prev_frame;
+        else if (uniform_len >= 0) {
             c.len = (uint8_t)uniform_len;
             auto d = rnd_bytes(r, c.len, 1);
             memcpy(c.data, d.data(), c.len);
         }
+        prev_frame = c;
         frames.push_back(can_line(t, c));
         t += gap(r, scale);
     }
@@ -138,8 +142,10 @@ static std::string gen_tunnel(uint64_t seed, uint64_t idx, bool thorough) {
     uint64_t tend = t + 60000000ULL + 2 * maxdelay + 65000000ULL;
     o.line(strf("plan v1 engine=net prop=C19 seed=0x%llx idx=%llu", (unsigned long long)seed, (unsigned long long)idx));
     double read0 = (faults && r.chance(0.3)) ? 0.02 + 0.02 * r.below(10) : 0;
-    o.line(strf("cfg scen=tunnel udp=%d fd=%d tscf=%d count=%d o0=%d ethpad=%d read0=%.2f sched=%s lat=%llu:%llu cost=%llu:%llu qcap=%zu tend=%llu rseed=0x%llx skew0=%lld skew1=%lld",
-                udp, fd, tscf, count, (int)r.chance(0.3), (int)(!udp && r.chance(0.4)), read0, sched_str(r).c_str(), (unsigned long long)lat_lo, (unsigned long long)lat_hi,
+    // coarse clock sources are legal: CLOCK_REALTIME may tick in us or ms steps (several frames then share one timestamp)
+    uint64_t clkgran = r.chance(0.25) ? (uint64_t[]){1000, 1000000, 4000000, 10000000}[r.below(4)] : 1;
+    o.line(strf("cfg scen=tunnel udp=%d fd=%d tscf=%d count=%d o0=%d ethpad=%d read0=%.2f clkgran=%llu sched=%s lat=%llu:%llu cost=%llu:%llu qcap=%zu tend=%llu rseed=0x%llx skew0=%lld skew1=%lld",
+                udp, fd, tscf, count, (int)r.chance(0.3), (int)(!udp && r.chance(0.4)), read0, (unsigned long long)clkgran, sched_str(r).c_str(), (unsigned long long)lat_lo, (unsigned long long)lat_hi,
                 (unsigned long long)r.range(50, 500), (unsigned long long)r.range(500, 20000), qcap, (unsigned long long)tend,
                 (unsigned long long)r.next(), (long long)r.range(0, 2000000) - 1000000, (long long)r.range(0, 2000000) - 1000000));
     for (auto &f : frames) o.line(f);
